@@ -6,7 +6,8 @@ From Hv Require Import Prelude Bytes TablesHttp TablesConfig Http Krauss Routing
   Config Server ServerProofs.
 Open Scope N_scope.
 
-(* C19: a client at a listed address never receives content from any route type, whatever it sends; block mode closes
+(* C19: a client at a listed address never receives content (a redirect, a file, a proxied answer, a WebSocket tunnel)
+   from any route type, whatever it sends - an Upgrade: websocket header included; block mode closes
    its connection, forbidden mode answers 403 on every route; forwarded on behalf of a listed address: 403; all
    unlisted: the route's handler answers *)
 Theorem C19_server_listed_never_content :
@@ -22,14 +23,14 @@ Theorem C19_server_listed_forbidden_mode :
   forall ipp fs (c : config) p req,
     mem (p_ip p) (cf_bl_list c) = true -> cf_bl_mode c <> BLOCK_MODE ->
     server_response ipp fs c p req = SNotFound \/ server_response ipp fs c p req = SWsOnly \/
-    server_response ipp fs c p req = SForbidden.
+    server_response ipp fs c p req = SForbidden \/ server_response ipp fs c p req = SClosed.
 Proof. exact server_listed_forbidden_mode. Qed.
 
 Theorem C19_server_forwarded_listed :
   forall ipp fs (c : config) p req a,
     mem (p_ip p) (cf_bl_list c) = false -> In a (forwarded ipp (r_headers req)) -> mem a (cf_bl_list c) = true ->
     server_response ipp fs c p req = SNotFound \/ server_response ipp fs c p req = SWsOnly \/
-    server_response ipp fs c p req = SForbidden.
+    server_response ipp fs c p req = SForbidden \/ server_response ipp fs c p req = SClosed.
 Proof. exact server_forwarded_listed. Qed.
 
 Theorem C19_server_unlisted_served :
@@ -37,6 +38,7 @@ Theorem C19_server_unlisted_served :
     mem (p_ip p) (cf_bl_list c) = false ->
     (forall a, In a (forwarded ipp (r_headers req)) -> mem a (cf_bl_list c) = false) ->
     server_response ipp fs c p req =
+    if is_upgrade req then ws_response c Served req else
     match get_handler (map subapp_of (cf_hosts c)) (subapp_of (cf_default_host c))
                       (option_map scalars (hget (HKnown H_Host) (r_headers req))) (scalars (r_uri req)) with
     | None => SNotFound
@@ -47,8 +49,19 @@ Theorem C19_server_unlisted_served :
     end.
 Proof. exact server_unlisted_served. Qed.
 
+(* ... and an upgrade request of such a client is tunnelled to the target of the first matching WebSocket route, or the
+   connection is closed when there is none. A listed client's upgrade request never is (C19_server_listed_never_content
+   counts SWsProxy as content): this is the defect F37 repaired in server.rs. *)
+Theorem C19_server_unlisted_upgrade :
+  forall (c : config) req,
+    ws_response c Served req = SClosed \/
+    exists h j rt t, get_route c h j = Some rt /\ rt_ws rt = Some t /\
+      wildcard_match (scalars (rt_matches rt)) (scalars (r_uri req)) = true /\ ws_response c Served req = SWsProxy t.
+Proof. exact server_unlisted_upgrade. Qed.
+
 Print Assumptions C19_server_listed_never_content.
 Print Assumptions C19_server_listed_block_dropped.
 Print Assumptions C19_server_listed_forbidden_mode.
 Print Assumptions C19_server_forwarded_listed.
 Print Assumptions C19_server_unlisted_served.
+Print Assumptions C19_server_unlisted_upgrade.
